@@ -6,6 +6,13 @@ MAX_PARALLEL = 14
 
 PROPERTIES = {}
 HARNESSES = []
+NOT_APPLICABLE = {
+    "C06": "object-file I/O and CLI live in the binary's main()/run() behind clap/File/fs (FFI): cannot be executed symbolically; "
+           "only the loader kernel from_raw is reachable and is decided under C03",
+    "C07": "agreement of three subcommands' exit status; the wiring is in main.rs (clap, fs), and the shortest disagreeing input needs "
+           ">= 257 statements of text, far beyond what the lexer can be symbolically executed on",
+    "C08": "file-system atomicity of a process under injected write faults (File::create / write in main.rs): outside symbolic execution",
+}
 
 FMT = "alloc::fmt::format -> String::new()"
 SYM = "symbol::with_symbol_table -> same closure on a harness-owned static map (shim FxHashMap)"
@@ -221,67 +228,38 @@ H("C19", "symbol::verif_h::c19_static_source", SYMF, covers=1, functions=["Stati
 DBG = "src/debugger/mod.rs"
 BPF = "src/debugger/breakpoint.rs"
 PRINT = "Output::print_fmt -> counter (program output counted, debugger text dropped)"
-READ = "Command::read_from -> arbitrary parsed command from the harness's command group (text->command is C14)"
+READ = "Command::read_from -> arbitrary parsed command of the harness's command form (text->command is C14)"
 EVALCUT = "debugger::eval::eval -> path cut (C15 decides eval)"
+CUTS = "arms excluded by the harness's command form are cut at their callees (print_registers / print_integer / show_assembly_source / print_help_message -> assume(false))"
 DBG_STUBS = [FMT, SYM, PRINT, READ, EVALCUT]
 DBG_INV = ["debugger representation invariant: initial_state.pc == asm_source.orig == state.orig; breakpoints sorted, duplicate-free, >= orig",
-           "label line L >= 1 and orig + L - 1 <= 0xFFFF (what the parser/loader produce)"]
-
-prop(
-    "C13",
-    "Debugger::run_command on one arbitrary parsed move/goto/break add/remove/print/registers/assembly/break list command from an "
-    "arbitrary machine (both 64K memories symbolic), arbitrary origin, PC, label line, 16-bit address / i16 offset: exactly the "
-    "named register/word/PC changes and only for a user-space target; i32 reference for label+offset and PC-offset arithmetic.",
-    "command text parsing (C14); eval (C15); the non-minimal assembly context printer's text.",
-    DBG_INV,
-)
-H("C13", "debugger::verif_h::c13_move_goto", DBG, uf=True, covers=3, stubs=DBG_STUBS, timeout=2400, mem_gb=24,
-  functions=["Debugger::run_command", "Debugger::resolve_location", "Debugger::resolve_pc_offset", "Debugger::resolve_label",
-             "Debugger::add_address_offset", "Debugger::expect_userspace_address", "resolve_symbol_address"],
-  what="one arbitrary move / goto (register, absolute, PC offset, label+offset) from an arbitrary machine",
-  bounds="one command; <= 2 breakpoints; label name 'ab'")
-
-# ------------------------------------------------------------------ not applicable / not (yet) claimed
-NOT_APPLICABLE = {
-    "C06": "object-file I/O and CLI live in the binary's main()/run() behind clap/File/fs (FFI): cannot be executed symbolically; "
-           "only the loader kernel from_raw is reachable and is decided under C03",
-    "C07": "agreement of three subcommands' exit status; the wiring is in main.rs (clap, fs), and the shortest disagreeing input needs "
-           ">= 257 statements of text, far beyond what the lexer can be symbolically executed on",
-    "C08": "file-system atomicity of a process under injected write faults (File::create / write in main.rs): outside symbolic execution",
-    "C05": "check under construction in this session (lexer/parser totality harnesses)",
-    "C09": "check under construction in this session", "C10": "check under construction in this session",
-    "C11": "check under construction in this session", "C12": "check under construction in this session",
-    "C14": "check under construction in this session", "C15": "check under construction in this session",
-    "C16": "check under construction in this session", "C17": "check under construction in this session",
-    "C18": "check under construction in this session", "C20": "check under construction in this session",
-}
-
-CUTS = "arms excluded by the harness's command group are cut at their callees (print_registers / print_integer / show_assembly_source / print_help_message -> assume(false))"
+           "label line L >= 1 and orig + L - 1 <= 0xFFFF (what the parser/loader produce)",
+           "exactly 2 breakpoints with symbolic addresses unless stated (a list of symbolic length is intractable for Vec::insert/remove)"]
 NA_FUNCS = ["Debugger::next_action", "Debugger::check_interrupts", "Debugger::run_command", "SignificantInstr::try_from", "RunState::check_pc_bounds",
             "Breakpoints::get"]
-RUNNING_WHAT = ("one real next_action from an arbitrary running configuration (StepOver{any}/StepInto{any}/Continue/Finish, <=2 breakpoints, any "
-                "marker/counters) x arbitrary machine; only `quit` offered: pauses exactly at armed breakpoint / HALT / PC outside "
-                "[origin,0xFE00) incl. 0xFFFF / step-over return address; otherwise Proceed with the documented successor status; machine, "
-                "breakpoints, program output untouched; marker re-armed; Proceed implies an instruction will execute (ranking lemma)")
 
+
+def DH(props, name, what, funcs, covers=1, cuts=True, tiers=None, bounds="one call / one command; 2 breakpoints; label name 'ab'", **kw):
+    for k, pp in enumerate(props):
+        H(pp, f"debugger::verif_h::{name}", DBG, tier=(tiers[k] if tiers else "quick"), uf=True, covers=covers,
+          stubs=DBG_STUBS + ([CUTS] if cuts else []), timeout=3000, mem_gb=24, functions=funcs, what=what, bounds=bounds, **kw)
+
+
+RUNNING = ("one real next_action from an arbitrary running configuration with status {} (any argument), 2 breakpoints at symbolic addresses, any "
+           "marker/counters x arbitrary machine; only `quit` offered: pauses exactly at armed breakpoint / HALT / PC outside [origin,0xFE00) incl. "
+           "0xFFFF / step-over return address; otherwise Proceed with the documented successor status; machine, breakpoints, program output "
+           "untouched; marker re-armed; Proceed implies an instruction will execute (ranking lemma)")
 prop(
     "C10",
-    "One-step refinement of the stepping automaton: (a) one real next_action from an arbitrary running configuration and machine, "
-    "(b) one real run_command with an arbitrary resuming command (step, step into k for every k>=1, step out, continue, quit, exit) "
-    "from a paused debugger.  Because the start configuration is arbitrary, agreement on one transition gives agreement on every "
-    "command history by induction; what executes between two calls is C02/C03.  The 0 -> 1 clamp of `step into` is checked on the real "
-    "argument parser (C14 harness c10_count_clamp).",
+    "One-step refinement of the stepping automaton: (a) one real next_action from an arbitrary running configuration (one harness per "
+    "status kind) and machine, (b) one real run_command with an arbitrary resuming command (step, step into k for every k>=1, step out, "
+    "continue, quit, exit; one harness each) from a paused debugger.  Because the start configuration is arbitrary, agreement on one "
+    "transition gives agreement on every command history by induction; what executes between two calls is C02/C03.  The 0 -> 1 clamp "
+    "of `step into` is checked on the real argument parser.",
     "the composition to whole sessions is an inductive argument, not a solver run; that 'step' over nested/recursive subroutines means "
     "what the user expects is a reading of help.txt (return address = PC+1 is what is checked).",
     DBG_INV,
 )
-H("C10", "debugger::verif_h::c10_running_step", DBG, uf=True, covers=5, stubs=DBG_STUBS + [CUTS], timeout=3000, mem_gb=24,
-  functions=NA_FUNCS, what=RUNNING_WHAT, bounds="one call; <= 2 breakpoints")
-H("C10", "debugger::verif_h::c10_resume_commands", DBG, uf=True, covers=4, stubs=DBG_STUBS + [CUTS], timeout=3000, mem_gb=24,
-  functions=["Debugger::run_command", "Debugger::check_halt", "features::stack"],
-  what="one arbitrary resuming command at a paused debugger: status armed as documented, refused on HALT, machine untouched",
-  bounds="one command")
-
 prop(
     "C09",
     "Transparency as two solver-decided lemmas: L-frame -- every control step (next_action while running; resuming, inspection and "
@@ -289,88 +267,108 @@ prop(
     "program's output; L-sched -- Proceed is returned only when the plain loop would execute mem[PC] next (PC in user space, not HALT), "
     "and quit/EOF hands the unchanged machine back to the plain loop (C03).",
     "the composition to whole runs and exit statuses is an argument; the run() loop's debugger branch itself (too heavy to execute "
-    "symbolically with a debugger attached, DESIGN.md section 3) is covered only through next_action's contract.",
+    "symbolically with a debugger attached, DESIGN.md section 3) is covered only through next_action's contract; the command reader's "
+    "text handling is C14.",
     DBG_INV,
 )
-H("C09", "debugger::verif_h::c10_running_step", DBG, uf=True, covers=5, stubs=DBG_STUBS + [CUTS], timeout=3000, mem_gb=24,
-  functions=NA_FUNCS, what=RUNNING_WHAT, bounds="one call; <= 2 breakpoints")
-H("C09", "debugger::verif_h::c13_inspection_readonly", DBG, uf=True, covers=3, stubs=DBG_STUBS, timeout=3000, mem_gb=24,
-  functions=["Debugger::run_command", "Debugger::show_assembly_source", "Output::print_registers", "Output::print_integer", "print_help_message"],
-  what="one arbitrary print/registers/echo/help/assembly/break list command: machine, status, breakpoints, program output untouched (minimal mode)",
-  bounds="one command; minimal output mode; empty AST")
-H("C09", "debugger::verif_h::c10_resume_commands", DBG, uf=True, covers=4, stubs=DBG_STUBS + [CUTS], timeout=3000, mem_gb=24, tier="thorough",
-  functions=["Debugger::run_command"], what="resuming commands leave the machine untouched", bounds="one command")
-
 prop(
     "C11",
     "Breakpoints::insert/remove/get on sorted duplicate-free lists of 0..3 entries with symbolic addresses (set semantics, sortedness); "
     "with_orig address arithmetic; break add/remove/list commands through run_command (user-space check, set semantics on a symbolic "
-    "membership probe); firing rule on one real next_action from an arbitrary configuration (pause iff an armed breakpoint is at PC); "
-    "re-arming: the 'just paused here' marker is cleared as soon as an instruction executes, so a breakpoint fires on every return, "
-    "including an immediate one (self-branch).",
-    ".break placement by the parser at text level (token-level harness c11_break_directive covers the address = statement index rule).",
+    "membership probe; one harness per command and list length); firing rule on one real next_action from an arbitrary configuration "
+    "(pause iff an armed breakpoint is at PC); re-arming: the 'just paused here' marker is cleared as soon as an instruction executes, "
+    "so a breakpoint fires on every return, including an immediate one (self-branch); .break marks the next statement's index.",
+    ".break placement at text level beyond one statement.",
     DBG_INV,
 )
-for n in (0, 1, 2, 3):
-    H("C11", f"debugger::breakpoint::verif_h::c11_set_len{n}", BPF, covers=2, functions=["Breakpoints::insert", "Breakpoints::remove", "Breakpoints::get"],
-      what=f"insert/remove/get on a sorted duplicate-free list of {n} symbolic addresses: set semantics, stays sorted/unique", bounds=f"list length {n}")
-H("C11", "debugger::breakpoint::verif_h::c11_with_orig", BPF, covers=1, functions=["Breakpoints::with_orig"], what="origin added to every .break index", bounds="2 entries")
-H("C11", "debugger::verif_h::c11_break_commands", DBG, uf=True, covers=3, stubs=DBG_STUBS + [CUTS], timeout=3000, mem_gb=24,
-  functions=["Debugger::run_command", "Breakpoints::insert", "Breakpoints::remove", "Debugger::expect_userspace_address", "Debugger::resolve_location"],
-  what="one arbitrary break add/remove/list: set semantics on user-space targets, refused elsewhere, machine untouched", bounds="one command; <= 2 breakpoints before")
-H("C11", "debugger::verif_h::c10_running_step", DBG, uf=True, covers=5, stubs=DBG_STUBS + [CUTS], timeout=3000, mem_gb=24,
-  functions=NA_FUNCS, what=RUNNING_WHAT, bounds="one call; <= 2 breakpoints")
-H("C11", "debugger::verif_h::c11_marker_cleared_on_execute", DBG, covers=1, stubs=[FMT, SYM], functions=["Debugger::increment_instruction_count"],
-  what="executing an instruction re-arms the breakpoint just paused at", bounds="complete")
-
 prop(
     "C12",
     "run_command(Reset) on arbitrary live and saved machines (both 64K memories symbolic): afterwards registers, PC, CC, origin and a "
     "symbolic probe cell equal the saved ones, and the saved machine is unchanged; for one arbitrary command of any other kind the "
     "saved machine (registers, PC, CC, probe cell) is unchanged.",
     "'running on behaves like a fresh run' follows from equality of the complete state plus C03, as an argument; eval receives only the "
-    "live machine by signature.",
+    "live machine by signature; how the saved machine is captured at load time (RunEnvironment::try_from) is read, not executed.",
     DBG_INV,
 )
-H("C12", "debugger::verif_h::c12_reset", DBG, uf=True, covers=1, stubs=DBG_STUBS + [CUTS], timeout=3000, mem_gb=24,
-  functions=["Debugger::run_command", "RunState::clone"], what="reset restores every register, PC, CC and memory word (symbolic probe)", bounds="one command")
-H("C12", "debugger::verif_h::c12_initial_state_immutable", DBG, uf=True, covers=2, stubs=DBG_STUBS, timeout=3000, mem_gb=24,
-  functions=["Debugger::run_command"], what="one arbitrary command (all kinds but eval/reset/help/assembly): saved initial machine untouched", bounds="one command")
-
-H("C13", "debugger::verif_h::c11_break_commands", DBG, uf=True, covers=3, stubs=DBG_STUBS + [CUTS], timeout=3000, mem_gb=24,
-  functions=["Debugger::run_command", "Debugger::expect_userspace_address"], what="break add/remove outside user space refused, nothing changes", bounds="one command")
-H("C13", "debugger::verif_h::c13_inspection_readonly", DBG, uf=True, covers=3, stubs=DBG_STUBS, timeout=3000, mem_gb=24,
-  functions=["Debugger::run_command"], what="print/registers/assembly/break list never change machine state", bounds="one command; minimal mode")
-
+prop(
+    "C13",
+    "Debugger::run_command on one arbitrary parsed move/goto/break add/remove/print/registers/assembly/break list command (one harness "
+    "per command form) from an arbitrary machine (both 64K memories symbolic), arbitrary origin, PC, label line, 16-bit address / i16 "
+    "offset: exactly the named register/word/PC changes and only for a user-space target; i32 reference for label+offset and PC-offset "
+    "arithmetic.",
+    "command text parsing (C14); eval (C15); the non-minimal assembly context printer's text.",
+    DBG_INV,
+)
 prop(
     "C16",
     "Ranking lemma, one call deep: the real next_action from an arbitrary running configuration (any PC incl. 0xFFFF, below origin, "
-    ">= 0xFE00, on HALT; any status; <= 2 breakpoints): it either asks for a command (consumes input) or returns Proceed with PC in "
+    ">= 0xFE00, on HALT; any status; 2 breakpoints): it either asks for a command (consumes input) or returns Proceed with PC in "
     "user space on a non-HALT word, i.e. the loop then executes an instruction; a StepInto count never grows.  `step` at PC = 0xFFFF "
-    "(return address PC+1) does not overflow (c10_resume_commands).",
+    "(return address PC+1) does not overflow.",
     "the run() loop's own guards with a debugger attached are read, not executed symbolically (too heavy: DESIGN.md section 3); "
     "the lemma talks about exactly those guards (HALT at PC, check_pc_bounds).",
     DBG_INV,
 )
-H("C16", "debugger::verif_h::c10_running_step", DBG, uf=True, covers=5, stubs=DBG_STUBS + [CUTS], timeout=3000, mem_gb=24,
-  functions=NA_FUNCS, what=RUNNING_WHAT, bounds="one call; <= 2 breakpoints")
-H("C16", "debugger::verif_h::c10_resume_commands", DBG, uf=True, covers=4, stubs=DBG_STUBS + [CUTS], timeout=3000, mem_gb=24,
-  functions=["Debugger::run_command"], what="resuming commands at any PC incl. 0xFFFF: no overflow, status armed", bounds="one command")
-
 prop(
     "C17",
     "Index/span arithmetic behind the debugger's view: label and PC-offset locations resolve to origin + line - 1 + offset (i32 reference) "
-    "exactly when that is a user-space address; AsmSource maps address -> statement (address - origin) or none; statement spans: first "
-    "token .. end of last consumed operand; directive spans = Span::join.",
-    "that the sliced text 'looks like' the statement in a real file (comments/commas between operands) is implied only as an argument.",
+    "exactly when that is a user-space address; AsmSource maps address -> statement (address - origin) or none and shows exactly the "
+    "statement's span; statement spans: first token .. end of last consumed operand; directive spans = Span::join.",
+    "that the sliced text 'looks like' the statement in a real file (comments/commas between operands, multi-byte characters before it) "
+    "is implied only as an argument from byte-offset spans.",
     DBG_INV,
 )
-H("C17", "debugger::verif_h::c17_resolve_location", DBG, uf=True, covers=2, stubs=DBG_STUBS, timeout=3000, mem_gb=24,
-  functions=["Debugger::resolve_label", "Debugger::resolve_pc_offset", "Debugger::add_address_offset", "resolve_symbol_address"],
-  what="label+offset / PC+offset -> address vs i32 reference, every origin/line/offset/PC", bounds="label name 'ab'")
+
+for nm, stname, tier in [("c10_running_continue", "Continue", "quick"), ("c10_running_finish", "Finish", "quick"),
+                         ("c10_running_stepinto", "StepInto{count}", "quick"), ("c10_running_stepover", "StepOver{return_addr}", "quick")]:
+    DH(["C10", "C09", "C11", "C16"], nm, RUNNING.format(stname), NA_FUNCS, covers=3,
+       tiers=["quick", "quick" if nm == "c10_running_continue" else "thorough", "quick" if nm == "c10_running_continue" else "thorough", "quick"])
+for nm, cmd in [("c10_cmd_step", "step"), ("c10_cmd_stepinto", "step into k (every k >= 1)"), ("c10_cmd_stepout", "step out"),
+                ("c10_cmd_continue", "continue"), ("c10_cmd_quit", "quit"), ("c10_cmd_exit", "exit")]:
+    DH(["C10", "C16", "C09"], nm, f"`{cmd}` at a paused debugger, arbitrary machine and PC (incl. HALT, 0xFFFF): status armed as documented, refused on "
+       "HALT, machine/breakpoints/program output untouched", ["Debugger::run_command", "Debugger::check_halt", "features::stack"], covers=2,
+       tiers=["quick", "quick" if nm in ("c10_cmd_step", "c10_cmd_continue") else "thorough", "thorough"])
+H("C18", "debugger::verif_h::c10_cmd_stepout", DBG, uf=True, covers=2, stubs=DBG_STUBS + [CUTS], timeout=3000, mem_gb=24, tier="thorough",
+  functions=["Debugger::run_command", "features::stack"], what="`step out` availability follows the flag", bounds="one command")
+H("C10", "debugger::command::parse::verif_h::c10_count_clamp", "src/debugger/command/parse/mod.rs", covers=2, stubs=[FMT],
+  functions=["Arguments::next_positive_integer_or_default"], what="step into count: default 1, 0 -> 1", bounds="one decimal digit")
+
+for nm, what in [("c13_move_reg", "move <register> v"), ("c13_move_addr", "move <absolute address> v"), ("c13_move_pcoff", "move ^offset v"),
+                 ("c13_move_label", "move label+offset v"), ("c13_goto_addr", "goto <absolute address>"), ("c13_goto_pcoff", "goto ^offset"),
+                 ("c13_goto_label", "goto label+offset")]:
+    DH(["C13"], nm, what + ": exactly the named target changes, only for a user-space address (i32 reference arithmetic); everything else untouched",
+       ["Debugger::run_command", "Debugger::resolve_location", "Debugger::resolve_pc_offset", "Debugger::resolve_label", "Debugger::add_address_offset",
+        "Debugger::expect_userspace_address", "resolve_symbol_address"], covers=1, allow_unsat=["target refused", "upper half", "target in user space"])
+DH(["C17", "C13"], "c17_resolve_location", "label+offset / PC+offset -> address vs i32 reference, every origin/line/offset/PC",
+   ["Debugger::resolve_label", "Debugger::resolve_pc_offset", "Debugger::add_address_offset", "resolve_symbol_address"], covers=2, cuts=False, tiers=["quick", "thorough"])
+for nm, what in [("c13_print_reg", "print <register>"), ("c13_print_addr", "print <address>"), ("c13_print_pcoff", "print ^offset"),
+                 ("c13_print_label", "print label+offset"), ("c13_registers", "registers"), ("c13_echo_help", "echo / help"),
+                 ("c13_assembly", "assembly <location> (minimal mode, empty AST)"), ("c13_breaklist", "break list (minimal mode)")]:
+    q = nm in ("c13_print_addr", "c13_registers", "c13_assembly")
+    DH(["C13", "C09"], nm, what + ": machine, status, breakpoints and program output untouched",
+       ["Debugger::run_command", "Debugger::show_assembly_source", "Output::print_registers", "Output::print_integer", "print_help_message"],
+       covers=1, cuts=False, tiers=["quick" if q else "thorough", "quick" if nm in ("c13_registers",) else "thorough"], bounds="one command; minimal output mode")
+
+for n in (0, 1, 2, 3):
+    H("C11", f"debugger::breakpoint::verif_h::c11_set_len{n}", BPF, covers=2, functions=["Breakpoints::insert", "Breakpoints::remove", "Breakpoints::get"],
+      what=f"insert/remove/get on a sorted duplicate-free list of {n} symbolic addresses: set semantics, stays sorted/unique", bounds=f"list length {n}")
+H("C11", "debugger::breakpoint::verif_h::c11_with_orig", BPF, covers=1, functions=["Breakpoints::with_orig"], what="origin added to every .break index", bounds="2 entries")
+for nm, what in [("c11_break_add_n0", "break add, empty list"), ("c11_break_add_n1", "break add, 1 breakpoint"), ("c11_break_add_n2", "break add, 2 breakpoints"),
+                 ("c11_break_remove_n1", "break remove, 1 breakpoint"), ("c11_break_remove_n2", "break remove, 2 breakpoints"), ("c11_break_list_n2", "break list")]:
+    q = nm in ("c11_break_add_n1", "c11_break_remove_n2")
+    DH(["C11", "C13"], nm, what + ": set semantics on user-space targets (absolute / ^offset / label+offset), refused elsewhere, list stays sorted/unique, machine untouched",
+       ["Debugger::run_command", "Breakpoints::insert", "Breakpoints::remove", "Debugger::expect_userspace_address", "Debugger::resolve_location"],
+       covers=1, tiers=["quick" if q else "thorough", "quick" if nm == "c11_break_add_n1" else "thorough"],
+       allow_unsat=["target refused", "list changed", "user-space target"], bounds="one command")
+H("C11", "debugger::verif_h::c11_marker_cleared_on_execute", DBG, covers=1, stubs=[FMT, SYM], functions=["Debugger::increment_instruction_count"],
+  what="executing an instruction re-arms the breakpoint just paused at", bounds="complete")
+
+DH(["C12"], "c12_reset", "reset restores every register, PC, CC and memory word (symbolic probe); saved machine untouched", ["Debugger::run_command", "RunState::clone"], covers=1)
+for nm, what in [("c12_immutable_move", "move"), ("c12_immutable_goto", "goto"), ("c12_immutable_control", "step/step into/step out/continue/quit/exit"),
+                 ("c12_immutable_break", "break add/remove"), ("c12_immutable_inspect", "print/registers/echo/break list")]:
+    DH(["C12"], nm, f"one arbitrary {what} command: saved initial machine (registers, PC, CC, probe cell) untouched", ["Debugger::run_command"], covers=1, cuts=False,
+       tiers=["quick" if nm in ("c12_immutable_move",) else "thorough"])
 H("C17", "symbol::verif_h::c17_span_join", SYMF, covers=1, functions=["Span::join"], what="Span::join covers both spans minimally", bounds="offsets/lengths < 1000")
-for k in ("C09", "C10", "C11", "C12", "C16", "C17"):
-    NOT_APPLICABLE.pop(k, None)
 
 # ------------------------------------------------------------------ C14
 INTF = "src/debugger/command/parse/integer.rs"
@@ -407,8 +405,6 @@ H("C14", "debugger::command::parse::verif_h::c14_arguments_tokens", PARSEF, cove
   functions=["Arguments::next_token_str", "Arguments::next_argument_str", "Arguments::arg_count"], what="tokenisation of every line <= 5 ASCII bytes", bounds="<= 5 bytes")
 H("C14", "debugger::command::parse::verif_h::c10_count_clamp", PARSEF, covers=2, stubs=[FMT], functions=["Arguments::next_positive_integer_or_default"],
   what="step into count: default 1, 0 -> 1", bounds="one decimal digit")
-H("C10", "debugger::command::parse::verif_h::c10_count_clamp", PARSEF, covers=2, stubs=[FMT], functions=["Arguments::next_positive_integer_or_default"],
-  what="step into count: default 1, 0 -> 1", bounds="one decimal digit")
 H("C14", "debugger::command::reader::stdin::verif_h::c14_transport_equivalence", STDINF, covers=2, timeout=3000, mem_gb=24,
   stubs=["Stdin::read_byte -> next byte of the harness's byte queue (the OS read is the only thing replaced)"],
   functions=["Argument::read", "Stdin::read", "Stdin::read_char", "read_char_from_bytes", "Utf8Position::from"],
@@ -437,8 +433,6 @@ H("C20", "debugger::command::reader::terminal::verif_h::c20_kernels_len3", TERMF
   what="all 125 strings of 3 characters x every cursor x both word modes", bounds="3 characters")
 H("C20", "debugger::command::reader::terminal::verif_h::c20_next_command_split", TERMF, covers=1, timeout=2400, functions=["Terminal::get_next_command"],
   what="submitted line of <= 3 bytes over {a, ';', space} split at ';'", bounds="<= 3 bytes")
-for k in ("C14", "C20"):
-    NOT_APPLICABLE.pop(k, None)
 
 # ------------------------------------------------------------------ C15
 EVALF = "src/debugger/eval.rs"
@@ -469,7 +463,6 @@ for nm, what, q in [
     H("C15", f"debugger::eval::verif_h::{nm}", EVALF, tier=("quick" if q else "thorough"), uf=True, covers=2, stubs=EVAL_STUBS, timeout=3000, mem_gb=24,
       functions=["eval_inner", "AsmParser::parse_simple", "AsmParser::parse_instr", "AsmParser::parse_trap", "AsmLine::backpatch", "AsmLine::emit", "AsmLine::bit_offs"],
       what=what, bounds="one eval; label name 'ab'")
-NOT_APPLICABLE.pop("C15", None)
 
 TRAP_STUBS = [FMT, "runtime::read_char -> next element of the harness's input queue (ASCII or U+FFFD), exit(1) at end of input",
               "Output::print_fmt -> capture sink (program output as code points)", EXIT]
@@ -528,7 +521,6 @@ H("C05", "parser::verif_h::c05_parse_loop_total", PAR, covers=3, timeout=3000, m
   what="parse() on <= 3 tokens of any kind from any starting line number: Ok or Err, never a panic (line counter, assert on .orig, span arithmetic)",
   bounds="<= 3 tokens")
 H("C05", "air::verif_h::c04_bit_offs", AIR, covers=3, stubs=[FMT], functions=["AsmLine::bit_offs"], what="bit_offs total at the i16 extremes", bounds="complete")
-NOT_APPLICABLE.pop("C05", None)
 
 prop(
     "C18",
@@ -553,9 +545,6 @@ H("C18", "runtime::verif_h::c02_stack_on", RT, uf=True, covers=2, timeout=900, f
 H("C18", "runtime::verif_h::c02_add", RT, uf=True, covers=2, timeout=900, functions=["RunState::add"],
   what="feature cell uninitialised: a non-0xD handler runs without consulting the flag (one representative; all C02 op harnesses run that way)", bounds="one instruction")
 H("C18", "features::verif_h::c18_fromstr_fixed", FEATF, covers=1, stubs=[FMT], functions=["Features::from_str"], what="'' / 'stack' / 'stack,stack' / unknown word", bounds="4 concrete strings")
-H("C18", "debugger::verif_h::c10_resume_commands", DBG, uf=True, covers=4, stubs=DBG_STUBS + [CUTS], timeout=3000, mem_gb=24, tier="thorough",
-  functions=["Debugger::run_command", "features::stack"], what="`step out` availability follows the flag", bounds="one command")
-NOT_APPLICABLE.pop("C18", None)
 
 H("C01", "lexer::verif_h::c01_keywords_instructions", LEX, covers=1, stubs=[FMT], timeout=2400,
   functions=["Cursor::check_instruction", "Cursor::check_trap", "Cursor::check_directive"], what="all 45 keywords (lowercase) -> documented token kinds; non-keywords -> Label", bounds="concrete keywords")
